@@ -223,6 +223,7 @@ static unsigned long id_fn(void) { return (unsigned long)tid(); }
 // log / fatal
 static uint64_t nwarn;
 std::string last_warning;
+std::function<void(int, const std::string &)> log_tap;
 uint64_t warnings() { return nwarn; }
 
 static std::string scrub(const char *msg) {	// pointers and other run-independent noise out of the trace
@@ -241,6 +242,7 @@ static void log_cb(int sev, const char *msg) {
 	if (sev == EVENT_LOG_DEBUG) return;
 	std::string s = scrub(msg);
 	if (sev >= EVENT_LOG_WARN) { nwarn++; last_warning = s; }
+	if (in_run && log_tap) log_tap(sev, s);
 	if (in_run) { sim::tr("log sev=%d %s", sev, s.c_str()); sim::count(sev >= EVENT_LOG_WARN ? "log.warn" : "log.msg"); }
 }
 static void fatal_cb(int err) {
@@ -282,6 +284,7 @@ void mon_run_begin(void) {
 	fails_fired = 0;
 	alloc_fail_clear();
 	th = ThreadHooks();
+	log_tap = nullptr;
 	held_by.clear();
 	strict_api_check = true;
 	in_run = true;
@@ -291,6 +294,7 @@ void mon_run_begin(void) {
 void mon_run_end(void) {
 	alloc_fail_clear();
 	in_run = false;
+	log_tap = nullptr;
 	th = ThreadHooks();
 }
 
